@@ -7,9 +7,11 @@ import (
 	"fmt"
 	"io"
 	"os"
+	"os/signal"
 	"path/filepath"
 	"sort"
 	"strings"
+	"syscall"
 	"time"
 
 	"reservoir/cache"
@@ -57,6 +59,7 @@ type world struct {
 	universe []int
 	steps    []*step
 	ops      []string // readable macro operations
+	auto     bool     // primitives describe themselves (directed histories)
 }
 
 func newWorld(cfg *config.Config, backend int, lim int64, dir string, universe []int) *world {
@@ -227,8 +230,63 @@ func (s *source) Read(p []byte) (int, error) {
 	return 0, io.EOF
 }
 
+// withFileSizeLimit runs f while no file of this process may grow beyond n bytes (write(2) then fails with
+// EFBIG; SIGXFSZ is ignored). The sandbox runs as root, so permission bits cannot inject write failures.
+func withFileSizeLimit(n int64, f func()) {
+	signal.Ignore(syscall.SIGXFSZ)
+	var old syscall.Rlimit
+	if err := syscall.Getrlimit(syscall.RLIMIT_FSIZE, &old); err != nil {
+		panic(err)
+	}
+	lim := syscall.Rlimit{Cur: uint64(n), Max: old.Max}
+	if err := syscall.Setrlimit(syscall.RLIMIT_FSIZE, &lim); err != nil {
+		panic(err)
+	}
+	defer func() {
+		if err := syscall.Setrlimit(syscall.RLIMIT_FSIZE, &old); err != nil {
+			panic(err)
+		}
+	}()
+	f()
+}
+
+// storeDiskFull performs Cache(k, ...) on the file backend while the disk accepts only n more bytes per file:
+// the copy fails part-way, Cache() must clean up. In the model this is a store whose transfer is aborted.
+func (w *world) storeDiskFull(k int, chunks [][]byte, n int64, exp int, obj int64) {
+	if w.auto {
+		w.say("store %d %s disk-write-fails-after=%d exp=%d obj=%d", k, showChunks(chunks), n, exp, obj)
+	}
+	src := &source{w: w, k: k, exp: exp, obj: obj, chunks: chunks, before: w.keyIDs()}
+	var err error
+	var entry *cache.Entry[Meta]
+	withFileSizeLimit(n, func() {
+		entry, err = w.c.Cache(keyOf(k), src, time.Now().Add(time.Duration(exp)*time.Second), Meta{Tag: obj})
+	})
+	if err == nil {
+		// everything fitted: an ordinary completed store
+		h := w.nextH
+		w.nextH++
+		w.handles[h] = entry
+		w.record(fmt.Sprintf("ACommit %d", k), fmt.Sprintf("(RHandle %d %s %s false)", h, emit.Z(entry.Metadata.Size), emit.Z(entry.Metadata.Object.Tag)), true)
+		return
+	}
+	if !src.started {
+		w.record(fmt.Sprintf("ABegin %d %s %s []", k, emit.Z(int64(exp)), emit.Z(obj)), "RErr", true)
+		return
+	}
+	if src.call == len(chunks)+1 {
+		// the source was read to EOF: the refusal is the empty-body one
+		w.record(fmt.Sprintf("ACommit %d", k), "RErr", true)
+		return
+	}
+	w.record(fmt.Sprintf("AAbort %d", k), "RErr", true)
+}
+
 // store performs Cache(k, src, now+exp, obj). ending: 0 ok, 1 source error, 2 crash (then the caller must reopen).
 func (w *world) store(k int, chunks [][]byte, ending int, exp int, obj int64, gaps map[int][]readReq) {
+	if w.auto {
+		w.say("store %d %s%s exp=%d obj=%d reads-between-chunks=%d", k, showChunks(chunks), []string{"", " fail", " crash"}[ending], exp, obj, len(gaps))
+	}
 	src := &source{w: w, k: k, exp: exp, obj: obj, chunks: chunks, ending: ending, gaps: gaps, before: w.keyIDs()}
 	var entry *cache.Entry[Meta]
 	var err error
@@ -268,6 +326,9 @@ func (w *world) store(k int, chunks [][]byte, ending int, exp int, obj int64, ga
 }
 
 func (w *world) get(k int) {
+	if w.auto {
+		w.say("get %d", k)
+	}
 	e, err := w.c.Get(keyOf(k))
 	act := fmt.Sprintf("AGet %d", k)
 	if errors.Is(err, cache.ErrCacheEntryNotFound) {
@@ -285,6 +346,11 @@ func (w *world) get(k int) {
 }
 
 func (w *world) doRead(h, n int, quiescent bool) {
+	if w.auto {
+		if quiescent {
+			w.say("read h%d %d", h, n)
+		}
+	}
 	e := w.handles[h]
 	act := fmt.Sprintf("ARead %d %d", h, n)
 	if e == nil {
@@ -301,6 +367,9 @@ func (w *world) doRead(h, n int, quiescent bool) {
 }
 
 func (w *world) closeH(h int) {
+	if w.auto {
+		w.say("close h%d", h)
+	}
 	if e := w.handles[h]; e != nil {
 		e.Data.Close()
 	}
@@ -308,6 +377,9 @@ func (w *world) closeH(h int) {
 }
 
 func (w *world) del(k int) {
+	if w.auto {
+		w.say("delete %d", k)
+	}
 	out := "RUnit"
 	if err := w.c.Delete(keyOf(k)); err != nil {
 		out = "RErr"
@@ -316,6 +388,9 @@ func (w *world) del(k int) {
 }
 
 func (w *world) update(k, exp int) {
+	if w.auto {
+		w.say("update %d exp=%d", k, exp)
+	}
 	out := "RUnit"
 	err := w.c.UpdateMetadata(keyOf(k), func(m *cache.EntryMetadata[Meta]) {
 		m.Expires = time.Now().Add(time.Duration(exp) * time.Second)
@@ -327,6 +402,9 @@ func (w *world) update(k, exp int) {
 }
 
 func (w *world) advance(d int) {
+	if w.auto {
+		w.say("advance %d", d)
+	}
 	w.c.VerifAge(time.Duration(d) * time.Second)
 	w.record(fmt.Sprintf("AAdvance %d", d), "RUnit", true)
 }
@@ -342,18 +420,27 @@ func (w *world) withHeld(skip []int, f func()) {
 }
 
 func (w *world) cleanup(skip []int) {
+	if w.auto {
+		w.say("cleanup skip=%v", skip)
+	}
 	w.withHeld(skip, func() { w.c.VerifCleanExpired() })
 	w.record(fmt.Sprintf("ACleanup %s", zlist(skip)), "RUnit", true)
 }
 
 // evict runs the real janitor eviction; the set it removed is what the model is told.
 func (w *world) evict(limit int64, skip []int) {
+	if w.auto {
+		w.say("evict limit=%d skip=%v", limit, skip)
+	}
 	before := w.keyIDs()
 	w.withHeld(skip, func() { w.c.VerifEvict(limit) })
 	w.record(fmt.Sprintf("AEvict %s", zlist(diff(before, w.keyIDs()))), "RUnit", true)
 }
 
 func (w *world) reopen() {
+	if w.auto {
+		w.say("reopen")
+	}
 	w.shutdown()
 	w.open()
 	w.record("AReopen", "RUnit", true)
